@@ -5,6 +5,7 @@
 Require Import ZArith List Bool String Ascii.
 From D377 Require Import Base.Certs Base.ZpField Base.FieldSec Base.Fields Model.CVal Generated.Consts
                          Model.Decaf Model.Sqrt Model.Bytes Model.Concrete.
+From D377 Require Model.FieldTable.
 Import ListNotations.
 Open Scope Z_scope.
 Local Existing Instance FqF.
@@ -104,6 +105,69 @@ Definition compress_ark (p : pt) : list Z := compress val ark_encode p.
 Definition decompress32_ark := decompress32 q fq (fun s => match ark_decode_new s with Some o => o | None => None end).
 Definition hash_bytes (p : pt) : list Z := let a := to_affine p in le_bytes 32 (val (aX a)) ++ le_bytes 32 (val (aY a)).
 
+
+(* ---- C08: hashing and identity tests (after the fix: commits fc6f547, 67aadb7) ---- *)
+Definition le64 (n : Z) : list Z := le_bytes 8 n.
+(* Hash for [u8; 32]: length prefix (usize) then the bytes; the recording hasher of the harness logs usize as 8 LE bytes *)
+Definition hash_enc (p : pt) : list Z := le64 32 ++ compress_ark p.
+Definition af_is_zero (a : apt) : bool := feqb (aX a) zero.
+
+(* ---- C06: constructors ---- *)
+(* Affine::get_xs_from_y_unchecked: the smaller root x of x^2 = (1 - y^2)/(a - d y^2) *)
+Definition te_x_from_y (y : Fq) : option Fq :=
+  let y2 := mul y y in
+  let den := sub ark_A (mul y2 ark_D) in
+  if feqb den zero then None else
+  let x2 := mul (inv den) (sub one y2) in
+  if feqb x2 zero then Some zero else
+  let '(b, x) := min_sr x2 one in
+  if b then Some (if val x <=? val (opp x) then x else opp x) else None.
+Definition fq_mod_order (l : list Z) : Fq :=
+  fq (FieldTable.from_le_bytes_mod_order q 32 (FieldTable.f_fsp2 FieldTable.cfg_fq) l).
+(* AffinePoint::from_random_bytes after the fix (commit be00c53): recover a curve point, then double it *)
+Definition af_from_random_bytes (l : list Z) : option apt :=
+  let y := fq_mod_order l in
+  match te_x_from_y y with
+  | Some x => Some (to_affine (ark_double (of_affine (mkapt x y))))
+  | None => None
+  end.
+
+(* byte-replay RNG of the harness: the given bytes, then a xorshift64 stream seeded with the length *)
+Definition mask64 (x : Z) : Z := x mod 2 ^ 64.
+Definition xs_next (x : Z) : Z :=
+  let x := Z.lxor x (mask64 (Z.shiftl x 13)) in
+  let x := Z.lxor x (Z.shiftr x 7) in
+  Z.lxor x (mask64 (Z.shiftl x 17)).
+Fixpoint xs_bytes (n : nat) (x : Z) : list Z :=
+  match n with O => nil | S n' => let x' := xs_next x in (x' mod 256) :: xs_bytes n' x' end.
+Definition rng_stream (given : list Z) (n : nat) : list Z :=
+  given ++ xs_bytes n (Z.lxor 11400714819323198485 (Z.of_nat (length given))).
+(* Distribution<Element> for Standard: rejection loop over EdwardsProjective::rand -> serialize -> decaf decode *)
+Fixpoint el_rand_loop (fuel : nat) (s : list Z) : option pt :=
+  match fuel with
+  | O => None
+  | S f =>
+    let limbs := firstn 32 s in let s1 := skipn 32 s in
+    let v := of_le_bytes (firstn 31 limbs ++ (Z.land (List.nth 31 limbs 0) 31 :: nil)) in
+    if q <=? v then el_rand_loop f s1 else      (* Fq::rand rejection *)
+    let y := fq v in
+    let greatest := Z.testbit (of_le_bytes (firstn 4 s1)) 31 in
+    let s2 := skipn 4 s1 in
+    match te_x_from_y y with
+    | None => el_rand_loop f s2
+    | Some x =>
+      (* serialize_compressed of the curve point: y with the sign-of-x flag in the top bit; then decaf decoding *)
+      let xx := if greatest then opp x else x in
+      let flag := negb (val xx <=? val (opp xx)) in
+      if flag then el_rand_loop f s2 else
+      match decompress32_ark (le_bytes 32 (val y)) with
+      | DOk p => Some p
+      | _ => el_rand_loop f s2
+      end
+    end
+  end.
+Definition el_rand (given : list Z) : option pt := el_rand_loop 700 (rng_stream given 30000).
+
 Definition bin (f : pt -> pt -> list Z) (vs : list value) : list Z := match vs with [VE p; VE p'] => f p p' | _ => bad end.
 Definition binEA (f : pt -> apt -> list Z) (vs : list value) : list Z := match vs with [VE p; VA p'] => f p p' | _ => bad end.
 Definition binAE (f : apt -> pt -> list Z) (vs : list value) : list Z := match vs with [VA p; VE p'] => f p p' | _ => bad end.
@@ -193,6 +257,12 @@ Definition ark_ops : list entry :=
     ("el.deser", ("L", unL (fun b => out_dec (if Nat.ltb (length b) 32 then DErrIo else decompress32_ark (firstn 32 b)))));
     ("af.deser", ("L", unL (fun b => match (if Nat.ltb (length b) 32 then DErrIo else decompress32_ark (firstn 32 b)) with
                                     | DOk p => 1 :: out_apt (to_affine p) | e => out_dec e end)));
+    ("el.hash", ("E", un hash_enc)); ("af.hash", ("A", unA (fun a => hash_enc (oa a))));
+    ("el.is_zero", ("E", un (fun p => out_bool (is_identity p)))); ("af.is_zero", ("A", unA (fun a => out_bool (af_is_zero a))));
+    ("af.xy", ("A", unA (fun a => if af_is_zero a then 0 :: nil else 1 :: out_apt a)));
+    ("af.from_random_bytes", ("L", unL (fun l => match af_from_random_bytes l with Some a => 1 :: out_apt a | None => 0 :: nil end)));
+    ("el.rand", ("L", unL (fun l => match el_rand l with Some p => out_pt p | None => (-8) :: nil end)));
+    ("af.rand", ("L", unL (fun l => match el_rand l with Some p => out_apt (to_affine p) | None => (-8) :: nil end)));
     (* hash to group *)
     ("el.elligator", ("F", unF (fun r => match ark_elligator (fq r) with Some p => out_pt p | None => panic end)));
     ("el.hash_to_curve", ("FF", fun vs => match vs with [VF r1; VF r2] =>
